@@ -1,0 +1,7 @@
+//go:build !verif
+
+// Package vhook provides trace points for external verification tooling. Without
+// the verif build tag every call compiles to nothing.
+package vhook
+
+func Emit(string, ...any) {}
